@@ -132,18 +132,23 @@ def register(eng):
     def mk_address(eng, bs, c):
         """Address::from_bytes contract on concrete-length bytes with a concrete header"""
         bs = list(bs)
-        if not bs or not isinstance(bs[0], int):
-            raise Unmodelled("address with symbolic / missing header byte")
+        if not bs:
+            return err(Opaque("address_error: missing header"))
+        if not isinstance(bs[0], int):
+            raise Unmodelled("address with symbolic header byte")
         ty = bs[0] >> 4
+        # pallas checks `payload.len() < N` only: longer input is accepted and the rest ignored
         if ty in (0, 1, 2, 3, 4, 5, 6, 7):
-            need = {0: 57, 1: 57, 2: 57, 3: 57, 6: 29, 7: 29}.get(ty)
-            if need is not None and len(bs) != need:
+            need = {0: 57, 1: 57, 2: 57, 3: 57, 4: 30, 5: 30, 6: 29, 7: 29}[ty]
+            if len(bs) < need:
                 return err(Opaque("address_error"))
+            if ty not in (4, 5):
+                bs = bs[:need]
             return ok(eng.mk_variant("Address", "Shelley", [Agg("ShelleyAddress", None, 0, [VecM(bs)])]))
         if ty in (14, 15):
-            if len(bs) != 29:
+            if len(bs) < 29:
                 return err(Opaque("address_error"))
-            return ok(eng.mk_variant("Address", "Stake", [Agg("StakeAddress", None, 0, [VecM(bs)])]))
+            return ok(eng.mk_variant("Address", "Stake", [Agg("StakeAddress", None, 0, [VecM(bs[:29])])]))
         if ty == 8:
             return ok(eng.mk_variant("Address", "Byron", [Agg("ByronAddress", None, 0, [VecM(bs)])]))
         return err(Opaque("address_error"))
